@@ -50,11 +50,36 @@ def _bounded(prop, driver, what, sidecars=(), assumptions=(), level="exploration
     )
 
 
+def _hybrid(prop, driver, sidecars, proved, bounded, assumptions=("A1", "A4", "A5", "A6", "A10", "Z3", "PYVC"), min_obligations=1, shards=None, bounded_only=()):
+    return dict(
+        sidecars=list(sidecars),
+        driver=driver,
+        level="other",
+        min_obligations=min_obligations,
+        shards=shards or {},
+        assumptions=list(assumptions),
+        extra_assumptions=["bounded part: documents <= ~26 tokens from a fixed corpus + seeded generator; sampled ranges where stated"],
+        level_text="Hybrid. Deductive (for all inputs, discharged on every run): " + proved + " Bounded stand-in (NOT proved): " + bounded,
+        level_note="Trusted: z3 unsat, pyvc encoding (assumptions in evidence), contracts marked trusted in the sidecars (listed in evidence), the independent oracle for the bounded part.",
+        technique="contract-based deductive verification (pyvc VCs from source -> z3) of the functions listed in evidence + bounded runtime-contract / oracle check for the rest",
+        explanation="Tier P: " + proved + " Tier B: " + bounded,
+        bounded_only=list(bounded_only),
+    )
+
+
 PROPS.update({
     "C01": _bounded("C01", "c01", "all eight step kinds applied (directly and through JSON) to valid documents under 6 schema variants; result must be a clean failure or an oracle-valid document."),
     "C02": _bounded("C02", "c02", "Node.slice / Node.replace against the flat-token oracle for every range of small documents and a pool of foreign slices."),
-    "C03": _bounded("C03", "c03", "every applied step's map against the token picture (size delta, tokens at mapped positions)."),
-    "C04": _bounded("C04", "c04", "histories through the transform API: replay, undo, alignment of steps/docs/maps, inverse maps; single-step undo."),
+    "C03": _hybrid("C03", "c03", ["contracts.transform_steps"],
+                   "the shape of every step's map (ReplaceStep / ReplaceAroundStep.get_map ranges from the step's fields, empty map for attribute / mark steps), "
+                   "Transform.add_step records exactly one map per step, StepMap._map / for_each obey the documented rule (from C08).",
+                   "faithfulness of the map to the document change (size delta, tokens at mapped positions) for every applied step of histories and primitive steps; it rests on the splice behaviour of replace (C02).",
+                   min_obligations=100, shards={"StepMap._map": 8}, bounded_only=["token-level faithfulness of the map"]),
+    "C04": _hybrid("C04", "c04", ["contracts.transform_steps"],
+                   "Transform.add_step / maybe_step / step keep steps, docs and maps aligned one-to-one, a rejected step changes nothing (frame), step() raises only TransformError; "
+                   "ReplaceStep.invert's fields; lemmas: the inverted replace / replace-around step's map maps every position like the inverted map (complete unrolling); mark-step inverses swap add/remove.",
+                   "replay and undo of whole histories, single-step undo, inverse maps on concrete steps.",
+                   min_obligations=40, bounded_only=["exact undo / replay of histories (needs the splice semantics of replace)"]),
     "C09": _bounded("C09", "c09", "resolve + every accessor, node_at, marks, nodes_between, text_between (UTF-16), range_has_mark against an oracle tree for every position / pair."),
     "C11": _bounded("C11", "c11", "7 replace-family operations x ranges x payload-valid slices: totality (2 s alarm), oracle validity, prefix/suffix preservation, no invented content."),
     "C12": _bounded("C12", "c12", "helper approvals (split, join, join_point, lift, wrap, insert_point, drop_point) followed by the edit: must succeed, stay valid, keep the leaf sequence."),
@@ -116,8 +141,14 @@ PROPS.update({
         explanation="One obligation per write site of the library source (re-read every run); a write to anything but a fresh object, the object under construction or a declared modifiable location fails its obligation. The bounded driver re-dumps all live values after operation batches.",
         bounded_only=["DOM conversion working state", "aliasing through containers"],
     ),
-    "C16": _bounded("C16", "c16", "ordered step pairs biased to adjacency: merged step vs the two steps."),
-    "C17": _bounded("C17", "c17", "pairs of steps with separated touched ranges: rebase both ways, both orders equal."),
+    "C16": _hybrid("C16", "c16", ["contracts.transform_steps"],
+                   "ReplaceStep.merge and Add/RemoveMarkStep.merge return a step only under the documented adjacency / overlap conditions, with the union range and (for replace) a slice whose size is the sum of the two, else None.",
+                   "equality of the merged step's result with the two steps' result on documents (needs the splice semantics of replace and Fragment.append's content).",
+                   min_obligations=40, bounded_only=["document-level equivalence of merged and sequential application"]),
+    "C17": _hybrid("C17", "c17", ["contracts.transform_steps"],
+                   "every step class's map(mapping): dropped exactly under the documented deletion-flag condition, otherwise positions are the mapped ones with the documented association sides and the payload is unchanged; StepMap._map's contract (C08).",
+                   "that both orders of two separated rebased steps apply and give equal documents.",
+                   min_obligations=100, shards={"StepMap._map": 8}, bounded_only=["commutation of the two application orders"]),
     "C18": _bounded("C18", "c18", "every range inside every isolating node x replace-family operations: tokens outside the node unchanged; lift_target / can_split do not cross."),
     "C20": _bounded("C20", "c20", "find_diff_start / find_diff_end against token prefixes / suffixes on equal copies and (document, edited document) pairs sharing sub-trees, incl. astral text; 2 s alarm."),
 })
